@@ -25,3 +25,5 @@ while read prop commit sig; do
 done < /tmp/revert_list.$$
 rm -f /tmp/revert_list.$$ /tmp/revert.$$.diff
 find /verif/replays -name '*.json' -delete 2>/dev/null
+# evidence written while a patch was applied describes the patched tree: put the committed files back
+git -C /verif checkout -- evidence 2>/dev/null
